@@ -181,6 +181,161 @@ def case_exact_integration(fam):
     return fn
 
 
+def case_paths(rep):
+    """Evaluation paths and options around the same reproduction clauses: out= buffers, option flags of grad/extract,
+    mixed containers, reload after a mesh change, multi-cell Lagrange regions, uniform regions with hessians on sheared
+    grids, float32 copies that are really evaluated, shape functions paired with their quadrature points."""
+    def fn(run):
+        import felupe as fem
+        rng = rng_for(run.seed, "C06", "paths", rep)
+        mon = "region.paths"
+        fam = ["quad", "hexahedron", "quad9", "tetra10", "hexahedron20", "triangle6"][rep % 6]
+        Fm = gen.FAMILIES[fam]
+        dim = Fm["dim"]
+        mesh, info = gen.build_mesh(fam, "affine", rng)
+        reg = gen.make_region(fam, mesh)
+        exps = monomials_total(dim, Fm["order"])
+        X = mesh.points
+        hs = float(np.min(X[mesh.cells].max(1) - X[mesh.cells].min(1)))
+        eye = np.eye(dim).reshape(dim, dim, 1, 1)
+
+        def sample():
+            polys = [Poly(rng, dim, exps) for _ in range(dim)]
+            return polys, np.stack([p(X) for p in polys], axis=1)
+
+        def refs(polys, Xq):
+            return (np.stack([p(Xq) for p in polys], 0), np.stack([np.moveaxis(p.grad(Xq), -1, 0) for p in polys], 0))
+        # ---- shape functions / derivatives are those of the element at the rule's points, in the rule's order
+        el, qd = reg.element, reg.quadrature
+        hq = np.array([el.function(pt) for pt in qd.points]).T
+        dq = np.moveaxis(np.array([el.gradient(pt) for pt in qd.points]), 0, -1)
+        run.compare(mon, "template=%s clause=h-at-quadrature-points" % fam, maxabs(reg.h[..., 0] - hq), 1e-14,
+                    "region.h[a, q] is not the shape function a at quadrature point q", unit="paths:h-pairing", config=(fam, "h-pairing"))
+        run.compare(mon, "template=%s clause=dhdr-at-quadrature-points" % fam, maxabs(reg.dhdr[..., 0] - dq), 1e-13,
+                    "region.dhdr[a, I, q] is not the shape function gradient at quadrature point q", unit="paths:dhdr-pairing")
+        Xq = np.einsum("caI,aq->qcI", X[mesh.cells], hq)
+        # ---- out= buffers reused at a second state (the path every solid body uses)
+        polys, vals = sample()
+        fld = fem.Field(reg, dim=dim, values=vals)
+        fc = fem.FieldContainer([fld])
+        fs = max(1.0, maxabs(vals))
+        buf = fc.extract()
+        polys2, vals2 = sample()
+        fld.values[:] = vals2
+        u2, g2 = refs(polys2, Xq)
+        got = fc.extract(out=buf)
+        run.compare(mon, "template=%s clause=extract-out-reused" % fam, maxabs(got[0] - (g2 + eye)) * hs / fs, 1e-10,
+                    "extract(out=previous result) at a new state is not grad + identity of the new state", unit="paths:extract-out", config=(fam, "extract-out"))
+        gb = fld.grad()
+        polys3, vals3 = sample()
+        fld.values[:] = vals3
+        u3, g3 = refs(polys3, Xq)
+        run.compare(mon, "template=%s clause=grad-out-reused" % fam, maxabs(fld.grad(out=gb) - g3) * hs / fs, 1e-10,
+                    "grad(out=previous result) at a new state differs from the analytic gradient", unit="paths:grad-out")
+        ib = fld.interpolate()
+        run.compare(mon, "template=%s clause=interpolate-out-reused" % fam, maxabs(fld.interpolate(out=np.full_like(ib, 7.0)) - u3) / fs, 1e-11,
+                    "interpolate(out=buffer with other content) differs from the polynomial", unit="paths:interpolate-out")
+        # ---- option flags
+        run.compare(mon, "template=%s clause=grad-sym" % fam, maxabs(fld.grad(sym=True) - 0.5 * (g3 + g3.transpose(1, 0, 2, 3))) * hs / fs, 1e-10,
+                    "grad(sym=True) is not the symmetric part of the gradient", unit="paths:grad-sym")
+        run.compare(mon, "template=%s clause=extract-no-identity" % fam, maxabs(fc.extract(add_identity=False)[0] - g3) * hs / fs, 1e-10,
+                    "extract(add_identity=False) is not the gradient", unit="paths:extract-flags")
+        run.compare(mon, "template=%s clause=extract-sym" % fam, maxabs(fc.extract(sym=True, add_identity=False)[0] - 0.5 * (g3 + g3.transpose(1, 0, 2, 3))) * hs / fs,
+                    1e-10, "extract(sym=True) is not the symmetric gradient", unit="paths:extract-flags")
+        run.compare(mon, "template=%s clause=extract-values" % fam, maxabs(fc.extract(grad=False)[0] - u3) / fs, 1e-11,
+                    "extract(grad=False) is not the interpolated field", unit="paths:extract-flags")
+        # ---- containers with several fields: gradient of the first, values of the others
+        if fam in ("quad", "hexahedron", "quad9", "hexahedron20"):
+            fm = fem.FieldsMixed(reg, n=3)
+            fm[0].values[:] = vals3
+            cp, cJ = float(rng.uniform(-1, 1)), float(rng.uniform(0.8, 1.2))
+            fm[1].values[:] = cp
+            fm[2].values[:] = cJ
+            ex = fm.extract()
+            run.compare(mon, "template=%s clause=mixed-extract-first" % fam, maxabs(ex[0] - (g3 + eye)) * hs / fs, 1e-10,
+                        "mixed container: first entry of extract() is not grad u + identity", unit="paths:mixed-extract", config=(fam, "mixed-extract"))
+            run.compare(mon, "template=%s clause=mixed-extract-duals" % fam, max(maxabs(ex[1] - cp), maxabs(ex[2] - cJ)), 1e-13,
+                        "mixed container: dual fields are not interpolated values in extract()", unit="paths:mixed-extract")
+        # ---- reload after a mesh change (documented: mesh.update(points, callback=region.reload))
+        A, t = gen.random_affine(rng, dim)
+        vol0 = float(reg.dV.sum())
+        mesh.update(points=mesh.points @ A.T + t, callback=reg.reload)
+        run.compare(mon, "template=%s clause=reload-volume" % fam, abs(reg.dV.sum() - vol0 * np.linalg.det(A)) / (vol0 * np.linalg.det(A)), 1e-11,
+                    "after mesh.update(callback=region.reload) the differential volumes do not measure the new geometry", unit="paths:reload", config=(fam, "reload"))
+        Xn = mesh.points
+        Xqn = np.einsum("caI,aq->qcI", Xn[mesh.cells], hq)
+        polys4 = [Poly(rng, dim, monomials_total(dim, 1)) for _ in range(dim)]
+        f4 = fem.Field(reg, dim=dim, values=np.stack([p(Xn) for p in polys4], axis=1))
+        g4 = np.stack([np.moveaxis(p.grad(Xqn), -1, 0) for p in polys4], 0)
+        hs4 = float(np.min(Xn[mesh.cells].max(1) - Xn[mesh.cells].min(1)))
+        run.compare(mon, "template=%s clause=reload-grad" % fam, maxabs(f4.grad() - g4) * hs4 / max(1.0, maxabs(f4.values)), 1e-10,
+                    "after reload the gradient of a linear function on the new geometry is wrong", unit="paths:reload")
+        r2 = reg.copy(hess=True) if fam in HESS_FAMILIES else None
+        if r2 is not None:
+            pq = [Poly(rng, dim, monomials_total(dim, 2 if Fm["order"] >= 2 else 1)) for _ in range(1)]
+            fh = fem.Field(r2, dim=1, values=np.stack([p(Xn) for p in pq], axis=1))
+            href = np.stack([np.moveaxis(p.hess(Xqn), (-2, -1), (0, 1)) for p in pq], 0)
+            run.compare(mon, "template=%s clause=copy-hess" % fam, maxabs(fh.hess() - href) * hs4 ** 2 / max(1.0, maxabs(fh.values)), 1e-9,
+                        "region.copy(hess=True): hessian of a field is wrong", unit="paths:copy-hess")
+        # ---- float32 copy, really evaluated
+        r32 = reg.astype(np.float32)
+        f32 = fem.Field(r32, dim=dim, values=f4.values.astype(np.float32))
+        run.compare(mon, "template=%s clause=float32-grad" % fam, maxabs(np.asarray(f32.grad(), float) - g4) * hs4 / max(1.0, maxabs(f4.values)), 5e-4,
+                    "gradient evaluated on the float32 copy of the region is not the float64 one within single precision", unit="paths:float32-field")
+        # ---- Lagrange regions on meshes with several cells (the cell axis is not a broadcast axis)
+        if rep % 2 == 0:
+            base = fem.Rectangle(b=(1.5, 1.2), n=(3, 4))
+            lm = base.add_midpoints_edges().add_midpoints_faces()
+            lmesh = lm.copy(points=lm.points @ gen.random_affine(rng, 2)[0].T)
+            lreg = fem.RegionLagrange(lmesh, order=2, dim=2)
+            ldim = 2
+        else:
+            base = fem.Cube(b=(1.5, 1.2, 0.9), n=(3, 2, 3))
+            lm = base.add_midpoints_edges().add_midpoints_faces().add_midpoints_volumes()
+            lmesh = lm.copy(points=lm.points @ gen.random_affine(rng, 3)[0].T)
+            lreg = fem.RegionLagrange(lmesh, order=2, dim=3)
+            ldim = 3
+        lh = np.array([lreg.element.function(pt) for pt in lreg.quadrature.points]).T
+        lXq = np.einsum("caI,aq->qcI", lmesh.points[lmesh.cells], lh)
+        lp = [Poly(rng, ldim, monomials_total(ldim, 2)) for _ in range(ldim)]
+        lf = fem.Field(lreg, dim=ldim, values=np.stack([p(lmesh.points) for p in lp], axis=1))
+        lg = np.stack([np.moveaxis(p.grad(lXq), -1, 0) for p in lp], 0)
+        lhs = float(np.min(lmesh.points[lmesh.cells].max(1) - lmesh.points[lmesh.cells].min(1)))
+        run.compare(mon, "template=lagrange[multi-cell,dim=%d] clause=grad" % ldim, maxabs(lf.grad() - lg) * lhs / max(1.0, maxabs(lf.values)), 1e-10,
+                    "RegionLagrange on a mesh with several cells: gradient of a quadratic polynomial is wrong", unit="paths:lagrange-multicell", config=("lagrange-multicell", ldim))
+        if np.all(lreg.dV > 0):
+            run.ok(mon, unit="paths:lagrange-multicell")
+        else:
+            run.fail(mon, "template=lagrange[multi-cell,dim=%d] clause=dV>0" % ldim, "RegionLagrange on a valid multi-cell mesh has non-positive dV")
+        # ---- uniform regions on a sheared grid, with hessians and field evaluation
+        ufam = "quad" if rep % 2 == 0 else "hexahedron"
+        ud = gen.FAMILIES[ufam]["dim"]
+        g0 = gen.FAMILIES[ufam]["base"](tuple(int(x) for x in rng.integers(3, 5, ud)))
+        Au = np.eye(ud) + 0.3 * np.triu(rng.uniform(-1, 1, (ud, ud)), 1)
+        um_ = g0.copy(points=g0.points @ Au.T)
+        ru = gen.make_region(ufam, um_, uniform=True, hess=True)
+        uh = np.array([ru.element.function(pt) for pt in ru.quadrature.points]).T
+        uXq = np.einsum("caI,aq->qcI", um_.points[um_.cells], uh)
+        up = [Poly(rng, ud, monomials_total(ud, 1)) for _ in range(ud)]
+        uf = fem.Field(ru, dim=ud, values=np.stack([p(um_.points) for p in up], axis=1))
+        ug = np.stack([np.moveaxis(p.grad(uXq), -1, 0) for p in up], 0)
+        uu = np.stack([p(uXq) for p in up], 0)
+        uhs = float(np.min(um_.points[um_.cells].max(1) - um_.points[um_.cells].min(1)))
+        run.compare(mon, "template=%s[uniform,sheared] clause=grad" % ufam, maxabs(uf.grad() - ug) * uhs / max(1.0, maxabs(uf.values)), 1e-10,
+                    "uniform region on a sheared grid: gradient of a linear function is wrong", unit="paths:uniform-sheared", config=(ufam, "uniform-sheared"))
+        run.compare(mon, "template=%s[uniform,sheared] clause=interpolate" % ufam, maxabs(uf.interpolate() - uu) / max(1.0, maxabs(uf.values)), 1e-11,
+                    "uniform region on a sheared grid: interpolation of a linear function is wrong", unit="paths:uniform-sheared")
+        # a multilinear function of the *sheared* coordinates is not in the element space; use one of the grid coordinates
+        Ainv = np.linalg.inv(Au)
+        blg = Poly(rng, ud, [e for e in monomials_tensor(ud, 1)])
+        fbg = fem.Field(ru, dim=1, values=blg(um_.points @ Ainv.T).reshape(-1, 1))
+        hg = np.einsum("...IJ,Ii,Jj->...ij", blg.hess(uXq @ Ainv.T), Ainv, Ainv)
+        hg = np.moveaxis(hg, (-2, -1), (0, 1))[None]
+        run.compare(mon, "template=%s[uniform,sheared] clause=hess" % ufam, maxabs(fbg.hess() - hg) * uhs ** 2 / max(1.0, maxabs(fbg.values)), 1e-9,
+                    "uniform region with hess=True on a sheared grid: hessian of a multilinear function of the grid coordinates is wrong", unit="paths:uniform-hess")
+    return fn
+
+
 def case_fields(kind):
     def fn(run):
         import felupe as fem
@@ -414,6 +569,8 @@ def cases(tier, seed):
         out.append(("variants:" + what, case_variants(what)))
     for rep in range(reps):
         out.append(("family-equality:%d" % rep, case_family_equality(rep)))
+    for rep in range(6 if tier == "quick" else 18):
+        out.append(("paths:%d" % rep, case_paths(rep)))
     return out
 
 
@@ -427,6 +584,8 @@ def _required():
             req.append(fam + ":hess")
         if not gen.FAMILIES[fam].get("mini"):
             req.append(fam + ":exact-integration")
+    req += ["paths:" + u for u in ("copy-hess", "dhdr-pairing", "extract-flags", "extract-out", "float32-field", "grad-out", "grad-sym", "h-pairing",
+                                   "interpolate-out", "lagrange-multicell", "mixed-extract", "reload", "uniform-hess", "uniform-sheared")]
     return req
 
 
